@@ -33,7 +33,7 @@ RvCases == [fam : {"param"}, sub : {"rvesting"}, list : {"empty", "one", "two", 
             denom : {"lower", "upper", "empty", "absent", "short", "badchar"}, enable : {"true", "false", "garbage"}, pool : {"empty", "small"}]
 AggParamCases == [fam : {"param"}, sub : {"aggregate"}, key : {"EnableAggregate", "EnableEVMHook", "Unknown"}, val : {"true", "false", "garbage", "null"}]
 
-AggCases == [fam : {"agg"}, p : {"RegisterCoin"}, f : {"valid", "evmdenom", "nosupply", "bigexponent", "nounits", "ibcnochannel"}]
+AggCases == [fam : {"agg"}, p : {"RegisterCoin"}, f : {"valid", "evmdenom", "nosupply", "bigexponent", "nounits", "ibcnochannel", "again", "againfeweraliases", "againmorealiases"}]
        \cup [fam : {"agg"}, p : {"AddCoin"}, f : {"valid", "badaddr", "unknownpair", "nosupply"}]
        \cup [fam : {"agg"}, p : {"RegisterERC20"}, f : {"valid", "zeroaddr", "notcontract", "noviews", "registered"}]
        \cup [fam : {"agg"}, p : {"Toggle"}, f : {"address", "denom", "unknown", "garbage"}]
